@@ -54,7 +54,7 @@ def check_policy_assumption(policies=None):
 
 # ------------------------------------------------------------------ abstract items -> real payloads
 CP_SYM = dict(cryptographic_algorithm=ALG.AES, block_cipher_mode=enums.BlockCipherMode.CBC, padding_method=enums.PaddingMethod.PKCS5)
-CP_SIG = dict(cryptographic_algorithm=ALG.RSA, hashing_algorithm=enums.HashingAlgorithm.SHA_256, padding_method=enums.PaddingMethod.PSS)
+CP_SIG = dict(cryptographic_algorithm=ALG.RSA, hashing_algorithm=enums.HashingAlgorithm.SHA_256, padding_method=enums.PaddingMethod.PKCS1v15)   # deterministic: C11 compares two engines
 
 
 def mac_item(uid, params, data):
